@@ -240,3 +240,15 @@ pub fn main_inventory() {
         }
     }
 }
+
+/// `gqlv normtokens`: {"id","tokens"} -> {"id","norm"}: the token stream re-printed canonically.
+pub fn main_normtokens() {
+    for job in read_jobs() {
+        let id = job.get("id").cloned().unwrap_or(Value::Null);
+        let tokens = job.get("tokens").and_then(|v| v.as_str()).unwrap_or("");
+        match tokens.parse::<proc_macro2::TokenStream>() {
+            Ok(ts) => emit(&json!({"id": id, "norm": ts.to_string()})),
+            Err(e) => emit(&json!({"id": id, "error": e.to_string()})),
+        }
+    }
+}
